@@ -135,7 +135,7 @@ def run(ctx):
         ops = json.load(open(ctx.replay)).get("ops", [])
     else:
         corpus = [l.rstrip("\n") for l in open("props/C20/corpus.ops") if l.strip() and not l.startswith("#")]
-        n = ctx.scale(1200, 12000)
+        n = ctx.scale(800, 12000)
         ops = list(corpus)
         for _ in range(n):
             ops += gen_scenario(ctx.rng, 40)
